@@ -25,7 +25,7 @@ func init() {
 			"cross-chunk order among equal log times is not constrained by the property and is not checked",
 			"the exhaustive flag is not set: the 2-channel sweep is only a slice",
 		},
-		batches: map[string]int{"quick": 16 + 40, "thorough": 64 + 400},
+		batches: map[string]int{"quick": 16 + 40, "thorough": 64 + 96},
 		checks:  map[string]int{"quick": 120, "thorough": 250},
 	}})
 }
